@@ -224,28 +224,28 @@ Proof. cbn zeta. split; [apply reachable_ok|]. vm_compute. repeat split. Qed.
 
 (* ---------- the model satisfies the property as written from the text ---------- *)
 (* [spec_c05] (Spec/SpecC05.v) is the executable statement of C05 written from the property text: tuples are
-   compared for EQUALITY, children are observed through behaviour.  Full statement wanted:
-       forall ops, no_collision ops = true -> spec_c05 ops (run world0 ops) = true
-   for every history over the operations of World.v.  Proved, by a simulation between the abstract
-   tuple -> child ledger of the spec and the world model (Proofs/C05Spec.v), for the scenario language
-   [in_domain]: the first operation creates ONE vector successfully, and every later operation is one of
-     counter / gauge vectors (in_domain_value, the complete language of the generator for these kinds):
+   compared for EQUALITY, children are observed through behaviour.  By a simulation between the abstract
+   tuple -> child ledger of the spec and the world model (Proofs/C05Spec.v; histogram cells and local histograms
+   through C12's hrel / local_of), the model satisfies it on every scenario of the language [in_domain] - the
+   complete language of the generator tools/p_C05.py, all five vector kinds with their local vectors:
+   the first operation creates ONE vector successfully, and every later operation is one of
+     counter / gauge vectors (in_domain_value):
        OpWith, OpWithMap, OpRemove, OpRemoveMap, OpReset, OpInc, OpIncBy, OpDec, OpAdd, OpSub, OpSet, OpGet,
-       OpCollect, OpClone, OpLocal (on slot 0), OpLvInc (increment of the vector's number type), OpFlush,
-       OpLvRemove - each on ANY slot, well-typed or not;
-     histogram vectors with valid buckets and fewer than 2^64 operations (in_domain_hist):
+       OpCollect, OpClone, OpLocal (on slot 0), OpLvInc (increment of the vector's number type), OpFlush, OpLvRemove,
+       OpDrop (not of slot 0);
+     histogram vectors with valid buckets (in_domain_hist):
        OpWith, OpWithMap, OpRemove, OpRemoveMap, OpReset (on slot 0), OpObserve, OpSampleCount, OpSampleSum,
-       OpCollect, OpClone.
-   Not covered (hence _partial): local HISTOGRAM vectors (OpLocal / OpLvObserve / OpFlush / OpLvRemove on a
-   histogram vector: a flushed batch adds its locally accumulated float sum, which the spec's ledger books value
-   by value - equal only when the sums are exact, as the generator guarantees), OpDrop, several vectors or
-   plain metrics in one scenario.
-   [no_collision ops]: the label-value tuples named in ops have pairwise distinct FNV-1a-64 keys unless equal
-   (decidable; evaluated by vm_compute). *)
-Theorem c05_spec_model_partial ops :
+       OpCollect, OpClone, OpLocal (on slot 0), OpLvObserve, OpFlush, OpLvRemove, OpDrop (not of slot 0)
+   - each on ANY slot, well-typed or not.  For histogram scenarios in_domain also evaluates, along the run, that no
+   ledger count (observations of a child, observations buffered in a cache entry) reaches 2^63: u64 counts do not
+   wrap (small_walk; decidable, like no_collision evaluated by vm_compute).
+   [no_collision ops]: the label-value tuples named in ops have pairwise distinct FNV-1a-64 keys unless equal.
+   Outside the language: dropping the vector's own handle, several vectors or plain metrics in one scenario, timers
+   (the generator emits none of these). *)
+Theorem c05_spec_model ops :
   in_domain ops = true -> no_collision ops = true -> spec_c05 ops (run world0 ops) = true.
 Proof. exact (spec_model ops). Qed.
-(* counter and gauge vectors, local counter vectors included *)
+(* counter and gauge vectors alone: no float axioms *)
 Theorem c05_spec_model_value ops :
   in_domain_value ops = true -> no_collision ops = true -> spec_c05 ops (run world0 ops) = true.
 Proof. exact (spec_model_value ops). Qed.
@@ -296,7 +296,7 @@ Check c05_local_key_iff : forall d t1 t2 h1 h2, wf_strs t1 -> wf_strs t2 ->
   fnv_injective_on [label_values_preimage t1; label_values_preimage t2] ->
   (h1 = h2 <-> t1 = t2).
 
-Check c05_spec_model_partial : forall ops,
+Check c05_spec_model : forall ops,
   in_domain ops = true -> no_collision ops = true -> spec_c05 ops (run world0 ops) = true.
 Check c05_spec_model_value : forall ops,
   in_domain_value ops = true -> no_collision ops = true -> spec_c05 ops (run world0 ops) = true.
@@ -333,7 +333,7 @@ Print Assumptions c05_refuted_collision.
 Print Assumptions c05_unconditional_iff_false.
 Print Assumptions c05_hypotheses_satisfiable.
 Print Assumptions c05_with_hypotheses_satisfiable.
-Print Assumptions c05_spec_model_partial.
+Print Assumptions c05_spec_model.
 Print Assumptions c05_spec_model_value.
 Print Assumptions c05_model_violation_needs_collision.
 Print Assumptions c05_spec_model_hypotheses_satisfiable.
